@@ -446,7 +446,7 @@ def rule_ignore_filter(m, rid):
 def rule_semicolon(m, rid):
     r = RuleResult(rid, "';' never splits a literal: it is applied to the tokenised line, every part has the replace map undone and "
                         "label then construct name re-extracted")
-    r.floor = 5
+    r.floor = 6
     nx = reader_func(m, "_next")
     splits = [c for c in A.calls(nx.node) if isinstance(c.func, ast.Attribute) and c.func.attr == "split" and c.args and A.const(c.args[0]) == ";"]
     if not splits:
@@ -496,6 +496,33 @@ def rule_semicolon(m, rid):
         r.fail("_next|splits-directive|%s" % ",".join(missing), "_next applies the ';' statement separator to %s items as well (they derive from Line "
                "and the guard does not exclude them): '#define A x; y' is delivered as a directive followed by the statement 'y'"
                % "/".join(missing), m.loc(nx))
+    # an empty part (trailing ';', ';;') is skipped: Line refuses empty text by raising, and next() turns any exception into
+    # end of input, so an unguarded construction drops the whole source line silently
+    P_ = A.parents(nx.node)
+    for c in A.calls(nx.node):
+        if A.text(c.func) != "Line":
+            continue
+        loop = None
+        x = c
+        guards = []
+        while x in P_ and P_[x] is not nx.node:
+            p_ = P_[x]
+            if isinstance(p_, ast.If) and x in p_.body:
+                guards.append(p_.test)
+            if isinstance(p_, ast.For):
+                loop = p_
+                break
+            x = p_
+        if loop is None:
+            continue
+        r.instances += 1
+        part_vars = set(A.assigned_names(loop.target))
+        ok = any(isinstance(g, ast.Name) and g.id in part_vars for g in guards) or \
+            any(isinstance(g, ast.Call) and isinstance(g.func, ast.Attribute) and g.func.attr == "strip" and A.text(g.func.value) in part_vars for g in guards)
+        r.ob(ok, "_next: a Line is built from a ';' part only under `if <part>`")
+        if not ok:
+            r.fail("_next|empty-part", "_next builds a Line from every ';' part, including an empty one (`x = 1; y = 2;`): Line raises on empty "
+                   "text and next() reports that as end of input, so the statements of that source line are silently dropped", m.loc(nx, c))
     # every Line built from a part: apply_map + extract_label before extract_construct_name
     r.instances += 1
     order = []
